@@ -1,4 +1,4 @@
-(** C15 — whatever another listener k does (joins, fails, is closed with events buffered, leaves), a healthy listener l holds the stream it would be entitled to had the hub never heard of k *)
+(** C15 — [NB: by definition of view_step the entitlement of l ignores ops about k, so this is each_event_once_in_order restated; the isolation content is that that theorem holds over all schedules including k's failures and closes. That a failed/closed listener leaves the registrations and is never called again: error_unregisters, remove_unregisters, dropped_listener_never_called_again.] whatever another listener k does (joins, fails, is closed with events buffered, leaves), a healthy listener l holds the stream it would be entitled to had the hub never heard of k *)
 From IV Require Import Base.Bytes Model.Hub Proofs.HubBasics Proofs.HubInv Proofs.HubTheorems Proofs.HubHistory Proofs.HubWitness.
 Local Open Scope nat_scope.
 Theorem faulty_listener_isolated : forall n c acts h l s k,
